@@ -11,7 +11,7 @@ ASSIGN = {   # datatype -> (valid python values, invalid python values)
     "A": (["x"], ["xy", "", 5]),
     "H": ([gfapy.ByteArray([1, 2]), "0A1B"], ["0G", "XY", 5]),
     "J": ([[1, 2], {"a": [1]}], ["{", 5]),
-    "B": ([gfapy.NumericArray([1, 2, 3]), gfapy.NumericArray([1.5, 2.5]), "c,1,2"], ["c,1,x", gfapy.NumericArray([1, 2.5]), gfapy.NumericArray([2**40])]),
+    "B": ([gfapy.NumericArray([1, 2, 3]), gfapy.NumericArray([1.5, 2.5]), "c,1,2"], ["c,1,x", gfapy.NumericArray([1, 2.5]), gfapy.NumericArray([2.5, 1, 2]), gfapy.NumericArray([True, 1]), gfapy.NumericArray([1, True]), gfapy.NumericArray([2**40])]),
 }
 
 
@@ -46,7 +46,7 @@ def doc_case(case):
 # values for a tag which does not exist yet (default datatype of the value): (datatype taken, value, valid)
 NEWTAG = [("Z", "hello", True), ("Z", "a\tb", False), ("Z", "x\ny", False), ("Z", "caf\u00e9", False), ("i", 5, True), ("i", True, False), ("f", 1.5, True), ("f", float("inf"), False),
           ("f", float("nan"), False), ("B", [1, 2], True), ("J", [True, False], True), ("B", [float("inf")], False), ("B", [2**40], False), ("J", {"a": [1]}, True), ("J", ["caf\u00e9"], True),
-          ("J", {"a": float("nan")}, False), ("J", [{1, 2}], False), ("J", {1: "a"}, False), ("H", gfapy.ByteArray([1, 2]), True), ("B", gfapy.NumericArray([1, 2.5]), False)]
+          ("J", {"a": float("nan")}, False), ("J", [{1, 2}], False), ("J", {1: "a"}, False), ("H", gfapy.ByteArray([1, 2]), True), ("B", gfapy.NumericArray([1, 2.5]), False), ("B", gfapy.NumericArray([2.5, 1, 2]), False), ("B", gfapy.NumericArray([True, 1, 2]), False)]
 
 
 def assign_case(case):
